@@ -107,8 +107,6 @@ pub struct MmapStorage {
     file: File,
     mmap: MmapMut,
     page_count: u32,
-    #[cfg(kahflane_turdb_verif)]
-    verif_path: std::path::PathBuf,
 }
 
 impl MmapStorage {
@@ -158,8 +156,6 @@ impl MmapStorage {
             file,
             mmap,
             page_count,
-            #[cfg(kahflane_turdb_verif)]
-            verif_path: path.to_path_buf(),
         })
     }
 
@@ -202,8 +198,6 @@ impl MmapStorage {
             file,
             mmap,
             page_count: initial_page_count,
-            #[cfg(kahflane_turdb_verif)]
-            verif_path: path.to_path_buf(),
         })
     }
 
@@ -263,15 +257,6 @@ impl MmapStorage {
     }
 
     pub fn sync(&self) -> Result<()> {
-        #[cfg(kahflane_turdb_verif)]
-        {
-            let r = self.mmap.flush().wrap_err("failed to sync mmap to disk");
-            if r.is_ok() {
-                crate::verif::file_event("msync", &self.verif_path);
-            }
-            return r;
-        }
-        #[cfg(not(kahflane_turdb_verif))]
         self.mmap.flush().wrap_err("failed to sync mmap to disk")
     }
 
